@@ -119,15 +119,15 @@ func (r *reader) keep(g group, failed bool) {
 	}
 }
 
-func (r *reader) stamp() uint64 { return r.rc.ctr.Add(1) }
+func (r *reader) stamp() uint64 { return r.rc.tick() }
 
 // observeBest is THE observation: one atomic load of bestSummary between two stamps.
 func (r *reader) observeBest() (*chain.BlockSummary, group) {
-	ph := r.rc.phase.Load()
+	ph := r.rc.getPhase()
 	s := r.stamp()
 	sum := r.rc.node.Repo.BestBlockSummary()
 	e := r.stamp()
-	if p2 := r.rc.phase.Load(); ph == phIdle {
+	if p2 := r.rc.getPhase(); ph == phIdle {
 		ph = p2
 	}
 	id := sum.Header.ID()
@@ -315,7 +315,7 @@ func (r *reader) readWholeState(sum *chain.BlockSummary, g *group, f *bfact) (fa
 // observeFinalized: one atomic load between two stamps; must never go backwards along the ancestry.
 func (r *reader) observeFinalized(readIt bool) {
 	n := r.rc.node
-	ph := r.rc.phase.Load()
+	ph := r.rc.getPhase()
 	s := r.stamp()
 	fin := n.BFT.Finalized()
 	e := r.stamp()
@@ -457,7 +457,7 @@ var nextRev, _ = restutil.ParseRevision("next", true)
 // root, which is the state root of the header's parent. The parent id is an observation of best (first load).
 func (r *reader) nextStep() {
 	n := r.rc.node
-	ph := r.rc.phase.Load()
+	ph := r.rc.getPhase()
 	s := r.stamp()
 	sum, st, err := restutil.GetSummaryAndState(nextRev, n.Repo, n.BFT, n.Stater, n.Net.FC)
 	e := r.stamp()
